@@ -589,7 +589,11 @@ def run(ctx):
     ctx.assumptions = ["the real functions are driven on tlexport.packet.Packet objects built from the generated frames; "
                        "the model receives what they read (ipv6_packet, ip_src, ip_dst, bytes(packet.tcp|udp))",
                        "end to end the tool is run in-process (tlexport.main.run with sys.argv), module-level lists reset"]
-    ctx.prove(["TLX.Props.C11"])
+    import export_inputs_thms          # whole-program forms (Props/ExportInputs) about exportFile / framesFrom
+    ctx.prove(["TLX.Props.C11"] + export_inputs_thms.MODULES)
+    ctx.require_theorems(export_inputs_thms.THEOREMS_C11)
+    import file_corr
+    file_corr.correspond(ctx, ctx.n(12, 200))     # ties the whole-program model (the theorems' subject) file to file
     ctx.require_theorems(THEOREMS)
     explore(ctx)
     return finish(ctx, lambda c: explore(c, scale=3))
